@@ -523,6 +523,8 @@ fn cmd_check(env: &Env, prop: Prop, args: &[String]) -> i32 {
             "scenarios_per_hour": if wall > 0.0 { (stats.scenarios as f64 / wall * 3600.0) as u64 } else { 0 },
             "seeds": {"VERIF_SEED": seed, "scenario_index_from": 0, "scenario_index_to_exclusive_upper_bound": n_scenarios, "scenarios_completed": stats.scenarios},
             "simulated_time": {"unit": "history events (logical time; deserr has no clock)", "events": stats.events},
+            "sessions": {"scenarios_per_session": SESSION_LEN, "sessions_run": (stats.scenarios + SESSION_LEN - 1) / SESSION_LEN,
+                         "what": "consecutive scenarios checked one after the other on an OS thread of their own; a violation that only appears after the earlier calls of its session is reported with them in its replay file"},
             "distinct_histories": stats.fingerprints.len(),
             "distinct_nontrivial_program_history_pairs": stats.nontrivial_program_fp.len(),
             "programs_exercised": stats.programs_used.len(),
@@ -542,7 +544,7 @@ fn cmd_check(env: &Env, prop: Prop, args: &[String]) -> i32 {
         "assumptions": [
             "the error type keeps what it is handed (SimErr does, and records when a value dies unconsumed)",
             "Sequence::len and Map::len are truthful (never faulted)",
-            "identifier shapes restricted to where camelCase is unambiguous",
+            "generated identifiers restricted to where camelCase is unambiguous; hand-specified ones cover digits, acronyms, raw identifiers, trailing underscores, non-ASCII",
             "model rules only on duplicate-free, non-exotic payloads under keep-going answers"
         ],
         "wall_s": wall,
